@@ -1,7 +1,7 @@
 import os, sys
 sys.path.insert(0, os.path.dirname(os.path.abspath(__file__)))
 import props
-HOOK_COMMITS = ["9850a25", "e674b3d", "e82f959", "06f2025", "5b38d79", "eb77004"]
+HOOK_COMMITS = ["9850a25", "e674b3d", "e82f959", "06f2025", "5b38d79", "eb77004", "e346888"]
 NOTES = ("Every check: rebuilds the Coq development (make), rebuilds the harness against /repo's working tree with -tags verif, "
          "runs the implementation on generated inputs, evaluates the extracted Coq model and the specification predicates on every case. "
          "See DESIGN.md.")
